@@ -6,6 +6,7 @@ import Urandom.Model.ZigData
 import Urandom.Lemmas.ExpEnclosure
 import Urandom.Lemmas.ZigguratLaw
 import Urandom.Lemmas.TailLaw
+import Urandom.Lemmas.BaseLayer
 /-
 C16 - Normal and exponential samplers really have the normal / exponential law.  **PARTIAL.**
 
@@ -33,6 +34,9 @@ of `R 0`; (5) proves that the two TAIL samplers have the conditional laws that t
  (5) **the tail samplers** (idealised; `Lemmas/TailLaw`): `R - ln U` is a unit exponential conditioned on
      exceeding `R`; Marsaglia's loop (`x = ln(U1)/R`, `y = ln(U2)` until `-2 y >= x^2`, result `R - x`)
      has the standard normal law conditioned on `[R, ∞)`.
+ (6) **the base layer** (idealised; `Lemmas/BaseLayer`): `x = u X[0]`, returned if `x < R`, else the tail sampler - under the
+     tail relation `(X[0] - R) f(R) = ∫_R^∞ f` this is the abscissa of a uniform point of the base layer; for the exponential
+     table the relation is `X[0] = R + 1` (proved in (1)), for the normal table it is a hypothesis (needs erfc enclosures).
  (2) **every tabulated ordinate equals the density at the tabulated abscissa** (`Real.exp`, relative
      `10^-13`, all 2 x 257 entries of the tables as they are in the source now): integer-only
      enclosures of `Real.exp` (`Lemmas/ExpEnclosure`: degree-19 Taylor fraction, Mathlib's remainder
@@ -256,5 +260,30 @@ theorem neg_log_uniform_is_exponential :
     MeasureTheory.Measure.map (fun u => -Real.log u) ((MeasureTheory.volume : MeasureTheory.Measure ℝ).restrict (Set.Ioo 0 1)) =
       ProbabilityTheory.expMeasure 1 :=
   TailLaw.neg_log_uniform
+
+/-! ### (6) the base layer: rectangle + tail -/
+
+/-- **the `i == 0` branch**, idealised: `x = u * x0` with `u` uniform on `(0,1)`; `x < R` returns `x`, otherwise an independent
+sample of the tail law (density `f` beyond `R`) is returned. Under the tail relation of the table, `(x0 - R) f(R) = ∫_R^∞ f`,
+the result is the `x`-marginal of a uniform point of the base layer (`baseRegion`: the rectangle `(0,R) x [0, f R)` plus the region
+under the curve beyond `R`) - which is what `ziggurat_method_law` assumes of layer 0. -/
+theorem base_layer_law (f : ℝ → ℝ) (hf : Measurable f) {R x0 : ℝ} (hR : 0 < R) (hx0 : R < x0) (hfR : 0 < f R)
+    (htail : BaseLayer.tail f R Set.univ = ENNReal.ofReal ((x0 - R) * f R)) :
+    (MeasureTheory.Measure.map (fun u => u * x0) TailLaw.unif).restrict (Set.Iio R) +
+        (MeasureTheory.Measure.map (fun u => u * x0) TailLaw.unif) (Set.Ici R) • ((BaseLayer.tail f R Set.univ)⁻¹ • BaseLayer.tail f R) =
+      (ENNReal.ofReal (x0 * f R))⁻¹ •
+        MeasureTheory.Measure.map Prod.fst ((MeasureTheory.volume : MeasureTheory.Measure (ℝ × ℝ)).restrict (BaseLayer.baseRegion f R)) := by
+  rw [BaseLayer.map_fst_restrict_baseRegion f hf R]
+  exact BaseLayer.base_layer_law f hf hR hx0 hfR htail
+
+/-- for the exponential table the tail relation is `X[0] = R + 1` (`exp_table_ok` on the translated table): the base layer
+of the exponential ziggurat is sampled uniformly -/
+theorem exp_base_layer_law {R : ℝ} (hR : 0 < R) :
+    (MeasureTheory.Measure.map (fun u => u * (R + 1)) TailLaw.unif).restrict (Set.Iio R) +
+        (MeasureTheory.Measure.map (fun u => u * (R + 1)) TailLaw.unif) (Set.Ici R) •
+          ((BaseLayer.tail (fun x => Real.exp (-x)) R Set.univ)⁻¹ • BaseLayer.tail (fun x => Real.exp (-x)) R) =
+      (ENNReal.ofReal ((R + 1) * Real.exp (-R)))⁻¹ •
+        MeasureTheory.Measure.map Prod.fst ((MeasureTheory.volume : MeasureTheory.Measure (ℝ × ℝ)).restrict (BaseLayer.baseRegion (fun x => Real.exp (-x)) R)) :=
+  BaseLayer.exp_base_layer_law hR
 
 end Urandom.C16
